@@ -20,6 +20,7 @@ fn main() {
                 "C12" => suites::c12::gen(tier, seed, &mut emit),
                 "C15" => suites::c15::gen(tier, seed, &mut emit),
                 "C13" => suites::c13::gen(tier, seed, &mut emit),
+                "C14" => suites::c14::gen(tier, seed, &mut emit),
                 _ => { eprintln!("unknown suite {}", suite); std::process::exit(2); }
             }
             out.finish();
